@@ -1,8 +1,10 @@
 #!/usr/bin/env python3
 """Evaluate a seeded change against the checks.
 usage: tools/seed_eval.py <seed-id> <property> [--from <worktree>/MUTATION_X] [--checks C01,C08] [--tier quick|thorough|both] [--confirm "<text>"]
-Copies patch/demo/readme into /verif/seeded/<seed-id>/ (when --from is given), applies the patch to /repo,
-runs the checks, records verdicts in meta.json, and restores /repo (git checkout -- .)."""
+Copies patch/demo/readme into /verif/seeded/<seed-id>/ (when --from is given), applies the patch to a scratch
+worktree of /repo (/tmp/seedrepo, removed afterwards), runs the checks against it (VERIF_REPO; own caches and
+evidence under .work/alt-*, so /repo, its caches and /verif/evidence are never touched), records the verdicts in
+meta.json. With --in-place the patch is applied to /repo itself (git apply / git checkout -- .) instead."""
 import sys, os, json, subprocess, shutil, argparse, time, re
 VERIF = os.path.dirname(os.path.dirname(os.path.abspath(__file__)))
 REPO = "/repo"
@@ -17,6 +19,7 @@ def main():
     ap.add_argument("sid"); ap.add_argument("prop")
     ap.add_argument("--from", dest="src"); ap.add_argument("--checks"); ap.add_argument("--tier", default="quick")
     ap.add_argument("--confirm", default=""); ap.add_argument("--needs", default="")
+    ap.add_argument("--in-place", action="store_true")
     a = ap.parse_args()
     d = os.path.join(VERIF, "seeded", a.sid)
     os.makedirs(d, exist_ok=True)
@@ -32,9 +35,19 @@ def main():
     if a.confirm:
         meta["confirmation"] = a.confirm
     checks = (a.checks or a.prop).split(",")
+    global REPO
+    env = dict(os.environ)
+    if not a.in_place:
+        wt = "/tmp/seedrepo"
+        if not os.path.exists(wt):
+            sh("git -C /repo worktree add -q --detach %s HEAD" % wt)
+        sh("git -C %s checkout -q --detach %s" % (wt, sh("git -C /repo rev-parse HEAD").stdout.strip()))
+        sh("git -C %s checkout -q -- ." % wt)
+        REPO = wt
+        env["VERIF_REPO"] = wt
     st = sh("git -C %s status --porcelain" % REPO).stdout.strip()
     if st:
-        print("refusing: /repo is not clean:\n" + st); return 2
+        print("refusing: %s is not clean:\n" % REPO + st); return 2
     r = sh("git -C %s apply %s" % (REPO, os.path.join(d, "patch.diff")))
     if r.returncode != 0:
         print("patch does not apply:", r.stderr); return 2
@@ -44,7 +57,7 @@ def main():
         for c in checks:
             for tier in tiers:
                 t0 = time.time()
-                p = sh("cd %s && ./check %s --tier %s" % (VERIF, c, tier))
+                p = sh("cd %s && ./check %s --tier %s" % (VERIF, c, tier), env=env)
                 kinds = re.findall(r"violation kinds: (.*)", p.stdout)
                 first = re.findall(r"e\.g\. \[[^\]]*\] (.*)", p.stdout)
                 res = {"check": c, "tier": tier, "exit": p.returncode, "wall_s": round(time.time() - t0, 1),
